@@ -6,16 +6,26 @@ Tie: T (driver/translate/c03_validate.py re-reads on every run, from pyroll/core
         under which guard), the mirroring statements, every post-construction validation (`test_*` methods called by
         `__init__`) as a table of checks, the name normalisation of `create_groove_by_type_name`, the shape checks of
         `SplineGroove.__init__` and the per-class constructor signatures -> lean/PyrollModel/Gen/C03.lean,
-        Gen/C03Groove.lean; the theorems of lean/PyrollProps/C03.lean are re-checked against the regenerated tables)
+        Gen/C03Groove.lean; driver/translate/c03_factory.py: the statement list of `create_groove_by_type_name` ->
+        Gen/C03Factory.lean; driver/translate/c03_ribbed.py: `EquivalentRibbedGroove.__init__` -> Gen/C03Ribbed.lean;
+        the theorems of lean/PyrollProps/C03.lean are re-checked against the regenerated tables)
    + K (the Lean model `GrooveWF.construct` over Float is run on the arguments every real constructor hands to
         `GenericElongationGroove.__init__` (captured by wrapping that method, restored in `finally`): accept/reject and
         the kind of rejection, all 31 junction values, every contour vertex; the model of the name normalisation on every
-        spelling variant).
+        spelling variant; the generated statement list of the factory (`Gen.C03Factory.steps`, lookup ORDER among the package and
+        the loaded modules) against the real function on worlds of stub modules; the generated table of
+        `EquivalentRibbedGroove.__init__` against every real construction of that class: decorator verdict, solver arguments,
+        arguments handed to the generic constructor).
 The independent oracle is written from the property text and looks only at the returned object
 (`contour_points/contour_line/cross_section/depth/usable_width/width` + the echoed attributes): finite, mirror-symmetric,
 strictly increasing in z, simple, never below the face, meets the face at the usable width, deepest vertex inside the
 usable width in [depth - sagitta, depth], requested values echoed; input that is unrealisable on its face (negative /
 non-finite dimension, negative flank length, flank angle >= 90 deg or <= 0, wrong number of defining values) must raise.
+By-name factory (docstring of `create_groove_by_type_name`: grooves of `pyroll.core.grooves` and of all loaded modules, "the
+former take precedence", every documented spelling): also while user-defined groove classes are loaded - under names the core
+uses and under new names - a core type name hands out the class of the public API (`factory-precedence:<kind>`), a new type
+name given in separated words is found (`factory-extension:words`) and is one of the classes of that name
+(`factory-extension-class:<kind>`), and the groove handed out reproduces the requested dimensions (the `echo-*` keys).
 """
 import contextlib
 import math
@@ -30,7 +40,8 @@ ID = "C03"
 LEAN_MODULES = ["PyrollProps.C03"]
 ALSO_LOCKS = ["C04"]            # PyrollProps.C03 imports PyrollProps.C04 (generated chain Gen.C04*)
 MODEL = "c03"
-MODEL_MODULES = ["PyrollModel.Gen.C03", "PyrollModel.Gen.C03Groove", "PyrollModel.GrooveWFDriver"]
+MODEL_MODULES = ["PyrollModel.Gen.C03", "PyrollModel.Gen.C03Groove", "PyrollModel.Gen.C03Factory", "PyrollModel.Gen.C03Ribbed",
+                 "PyrollModel.GrooveWFDriver"]
 RULE = ("for each of the 21 public parametric groove classes x each admissible defining subset (75 combinations; 60 draws each in "
         "the quick tier, 180 for single-subset classes) x {direct constructor 70 %, by-name factory under a random documented "
         "spelling 30 %}: a feasible geometry is drawn forwards (angles, radii, flank length; pad angle in {0, 30, 45, random}; "
@@ -45,7 +56,20 @@ RULE = ("for each of the 21 public parametric groove classes x each admissible d
         "1e-12 / 1e12 scaling of one length, defining value or required parameter dropped, surplus defining value (consistent or "
         "contradictory), usable_width == ground_width}. A case = one constructor call; non-trivial = an object came back and "
         "was checked, or the input was unrealisable on its face and had to be rejected; distinct by class, subset, route, stream "
-        "and rounded parameters. Plus ~450 ASCII names for the factory's normalisation, 11 spline shape cases and 60 (thorough 600) "
+        "and rounded parameters. Plus the by-name factory in the presence of user-defined groove classes: 1 fixed + 40 (thorough "
+        "600) worlds of 1-3 modules registered in sys.modules after pyroll.core, each defining 1-3 GrooveBase subclasses - under a "
+        "name the core also uses (a subclass of that core class that behaves the same / reads its lengths in another unit, x 25.4, "
+        "1/25.4, 1e-3, 1e3, 0.5, 2 / is a different groove altogether) or under a new CamelCase name of 1-3 words (optionally a digit "
+        "word; pass-through subclass of a random core class; the same new name may be defined by two modules); every class name of "
+        "the world + a focus class is requested through the factory under two documented spellings (exact / separated words, "
+        "random separators and capitalisation, with or without the word groove) with feasible (80 %) or perturbed dimensions of "
+        "the (base) class: a core name must hand out THE class of pyroll.core.grooves, a new name one of the world's classes of "
+        "that name, and whatever comes back must pass the contour oracle with the requested dimensions; modules are removed from "
+        "sys.modules and emptied in `finally`, the classes garbage-collected at the end of the stream. (K) 40 (thorough 600) "
+        "worlds of STUB modules (core names and new names bound to stub groove classes, other truthy objects, falsy objects, or the "
+        "package's own class; now and then an extra binding in the package) x ~15 names (documented spellings, one-character "
+        "edits, exact names): real lookup vs the generated statement list of the factory. Plus ~450 ASCII names for the factory's "
+        "normalisation, 11 spline shape cases and 60 (thorough 600) "
         "six-vertex spline polylines of extent 1e-3 ... 3000 whose end ordinates / ordinates next to the ends are 0, 0.25 ... 40 x a "
         "tolerance a face test may have (1e-8 absolute, 1e-9 x extent).")
 ASSUMPTIONS = [
@@ -54,7 +78,11 @@ ASSUMPTIONS = [
     "GEOS `is_simple` is an external parameter of the model (its verdict on the constructed polyline is an input of "
     "`construct`); after the repair it is implied by the strict z-monotonicity check (theorem zmonotone_simple)",
     "scipy root finding is outside the model: for solver-backed classes the model starts from the arguments the class "
-    "hands to GenericElongationGroove.__init__ (the solver contract itself is C04's subject)",
+    "hands to GenericElongationGroove.__init__ (the solver contract itself is C04's subject); for EquivalentRibbedGroove the "
+    "constructor itself is modelled with the solver's answer (alpha3, flank angle) as a parameter",
+    "factory lookup: a python object is abstracted to (defining module, name, is a GrooveBase subclass, truthiness); module "
+    "`__getattr__` hooks and modules other than the package and the harness modules are assumed not to bind names ending in "
+    "`Groove` (counted as K:lookup-skipped when the real factory finds something the world does not describe)",
     "oracle tolerances: below-face and depth overshoot 1e-7 x groove size (100 x the validator's relative tolerance, "
     "rounding only; for GenericElongationGroove itself, whose indent/r3/r4/alpha4 are free inputs, depth overshoot up to the "
     "0.1 % of depth its validation documents); deepest vertex >= depth - (neighbouring vertex spacing)/9 (sagitta of a circle sampled with >= 20 "
@@ -63,7 +91,10 @@ ASSUMPTIONS = [
     "every absolute allowance + 8 ulp(largest radius) (cancellation in the junction sums when a radius dwarfs the groove)",
 ]
 TRUSTED_EXTRA = ["translator driver/translate/c03_validate.py (+ groove.py): AST whitelist -> check/piece tables; mitigated "
-                 "by running the generated tables through the Lean model against every real construction"]
+                 "by running the generated tables through the Lean model against every real construction",
+                 "translators driver/translate/c03_factory.py (statement list of create_groove_by_type_name) and c03_ribbed.py "
+                 "(EquivalentRibbedGroove.__init__): statement shapes whitelisted; the generated tables are run against the real "
+                 "function on stub-module worlds resp. against every real construction of the class"]
 
 DEG = math.pi / 180
 NAN = float("nan")
@@ -489,6 +520,7 @@ def infeasible(rng, cname, subset, fixed, vals):
 class Log:
     def __init__(self):
         self.generic_calls = []        # kwargs of every GenericElongationGroove.__init__ call (bound, incl. defaults)
+        self.ribbed_solver_calls = []  # (kwargs, result | None) of the solver calls of EquivalentRibbedGroove.__init__
 
 
 @contextlib.contextmanager
@@ -510,11 +542,28 @@ def instrumented(log):
         return orig(self, *a, **k)
 
     wrapper.__signature__ = sig         # `optional_keywords` reads the signatures while the wrapper is installed
+    # the root finder EquivalentRibbedGroove.__init__ asks (a module global of its file): arguments and answer
+    import pyroll.core.grooves.equivalent_ripped_groove as RM
+    solver_names = [n for n in vars(RM) if n.startswith("solve_") and callable(getattr(RM, n))]
+    solvers = {n: getattr(RM, n) for n in solver_names}
+
+    def recording(name, fn):
+        def solve(*a, **k):
+            rec = [name, dict(k) if not a else None, None]
+            log.ribbed_solver_calls.append(rec)
+            rec[2] = fn(*a, **k)
+            return rec[2]
+        return solve
+
     G.__init__ = wrapper
+    for n, fn in solvers.items():
+        setattr(RM, n, recording(n, fn))
     try:
         yield
     finally:
         G.__init__ = orig
+        for n, fn in solvers.items():
+            setattr(RM, n, fn)
 
 
 def construct(cname, kwargs, log, via=None):
@@ -577,10 +626,10 @@ def _segments_cross(P):
     return False
 
 
-def check_wellformed(ctx, cname, tag, kwargs, g, route):
+def check_wellformed(ctx, cname, tag, kwargs, g, route, rp_extra=None):
     """the property on one RETURNED object; -> list of violation keys (also reported through ctx)"""
     import numpy as np
-    replay = {"class": cname, "kwargs": kwargs, "via": route}
+    replay = dict({"class": cname, "kwargs": kwargs, "via": route}, **(rp_extra or {}))
     bad = []
 
     def viol(key, what):
@@ -824,6 +873,47 @@ class Corr:
         self.lines.append("name " + enc)
         self.expect.append(("name", name, resolved))
 
+    # ---- EquivalentRibbedGroove.__init__ ------------------------------------------------------------------
+    def ribbed_case(self, kwargs, log, g, exc):
+        """the generated table of `EquivalentRibbedGroove.__init__` (op `ribbed`) vs one real call: does the `validated`
+        decorator raise, the keyword arguments of the solver call, the arguments handed to the generic constructor"""
+        rb = self.found.get("ribbed")
+        if not rb or not rb["superArgs"]:
+            return
+        named = [n for n, _ in rb["params"]]
+        if any(req and kwargs.get(n) is None for n, req in rb["params"]):
+            return                                          # python's own TypeError (missing argument) / arithmetic on None
+        given, kw = {}, {}
+        for k, v in kwargs.items():
+            if v is None:
+                continue
+            if isinstance(v, bool) or not isinstance(v, (int, float)):
+                return
+            (given if k in named else kw)[k] = float(v)
+        given.setdefault("pad_angle", 0.0)                  # the only numeric default of the signature
+        solver = [c for c in log.ribbed_solver_calls if c[0] == rb["solver"]]
+        sol = {}
+        if solver and isinstance(solver[-1][2], dict):
+            sol = {"sol." + k: float(v) for k, v in solver[-1][2].items() if isinstance(v, (int, float))}
+        decorator_raised = False
+        if exc is not None:
+            tb = traceback.extract_tb(exc.__traceback__)
+            inside = any(f.filename.endswith("equivalent_ripped_groove.py") for f in tb)
+            # the constructor's own decorator (the solver is decorated as well: that one raises from inside the constructor)
+            decorator_raised = tb[-1].filename.endswith("_validation.py") and not inside
+            if not inside and not decorator_raised:
+                return                                      # raised before the constructor ran (binding)
+        enc = lambda d: " ".join(f"{k}={stub.bits(v)}" for k, v in d.items())
+        self.lines.append(f"ribbed given {enc(given)} sol {enc(sol)} kw {enc(kw)}")
+        generic = log.generic_calls[-1] if log.generic_calls else None
+        self.expect.append(("ribbed", kwargs, decorator_raised, solver[-1][1] if solver else None, generic, bool(sol)))
+
+    def lookup_case(self, name, pkg, modules, real):
+        """`pkg`, `modules`: the namespaces as `label:attr=kind,…` (see GrooveWFDriver); `real`: `called <owner>/<name>` | `notfound`"""
+        enc = ",".join(str(ord(c)) for c in name) or "-"
+        self.lines.append(" ".join(["lookup", enc, pkg, pkg] + list(modules)))
+        self.expect.append(("lookup", name, modules, real))
+
     def spline_case(self, ndim, rows, accepted):
         enc = ";".join(",".join(str(stub.bits(float(v))) for v in r) or "-" for r in rows) or "-"
         self.lines.append(f"spline {ndim} {enc}")
@@ -846,6 +936,41 @@ class Corr:
                 if got != (resolved or "-"):
                     ctx.disagreement(f"factory name {name!r}: the real factory resolves to {resolved}, the model to {got}",
                                      {"name": name})
+                else:
+                    ctx.validated()
+                continue
+            if exp[0] == "ribbed":
+                _, kwargs, decorator_raised, solver_kw, generic, have_sol = exp
+                rp = {"class": "EquivalentRibbedGroove", "kwargs": kwargs}
+                verdict, rest = ans.split(" ", 1)
+                margs, msolver = [dict((t.split("=")[0], stub.unbits(t.split("=")[1])) for t in part.split(" ") if "=" in t)
+                                  for part in rest.split(" | ")]
+                same = lambda a, b: (a != a and b != b) or a == b or abs(a - b) <= 1e-9 * max(abs(a), abs(b))
+                bad = None
+                if (verdict == "rejected") != decorator_raised:
+                    bad = f"the `validated` decorator {'raises' if decorator_raised else 'passes'}, the model says {verdict}"
+                elif not decorator_raised:
+                    if solver_kw is not None:
+                        if set(solver_kw) != set(msolver):
+                            bad = f"solver called with {sorted(solver_kw)}, the model's call has {sorted(msolver)}"
+                        else:
+                            bad = next((f"solver argument {k}: real {float(solver_kw[k])!r}, model {msolver[k]!r}" for k in msolver
+                                        if not same(float(solver_kw[k]), msolver[k])), None)
+                    if bad is None and generic is not None and have_sol:
+                        bad = next((f"argument {k} of the generic constructor: real {generic.get(k)!r}, model {v!r}"
+                                    for k, v in margs.items() if generic.get(k) is None or not same(float(generic[k]), v)), None)
+                if bad:
+                    ctx.disagreement("EquivalentRibbedGroove: " + bad, rp)
+                else:
+                    ctx.validated()
+                    ctx.count("K:ribbed:" + ("decorator-raised" if decorator_raised else "handed-over" if generic is not None
+                                             and have_sol else "solver-only"))
+                continue
+            if exp[0] == "lookup":
+                _, name, modules, real = exp
+                if ans != real:
+                    ctx.disagreement(f"factory lookup of {name!r} with the modules {modules}: the real factory: {real}, the "
+                                     f"generated statement list: {ans}", {"lookup": name, "modules": modules})
                 else:
                     ctx.validated()
                 continue
@@ -921,36 +1046,76 @@ class Corr:
 # ---------------------------------------------------------------------------------------------------------
 # one case
 # ---------------------------------------------------------------------------------------------------------
-def run_case(ctx, corr, log, cname, subset, kwargs, stream, must_reject, via=None, kind=None):
+def run_case(ctx, corr, log, cname, subset, kwargs, stream, must_reject, via=None, kind=None, world=None, target=None,
+             expect=None):
+    """one constructor call + the oracle on what comes back.
+
+    Requests made while harness-defined modules are loaded (`plugin_world`) carry `world` (the replayable description of
+    those modules), `target` = ("core", <class name>) | ("extension", <class name>) - what the type name `via` spells - and
+    `expect` = the class object(s) the documented lookup admits: for a core name THE class of `pyroll.core.grooves` ("the
+    former take precedence"), for a new name the harness classes of that name.  `cname` is then the core class the
+    requested dimensions are drawn for (= the base of an extension class)."""
     tag = cname + ":" + "+".join(subset) + (":factory" if via else "")
     canon = [cname, list(subset), via is not None, stream,
              sorted((k, float("%.6g" % v) if isinstance(v, float) and math.isfinite(v) else str(v)) for k, v in kwargs.items())]
+    rp_extra = {}
+    if world is not None:
+        canon.append([via, list(target), world])
+        rp_extra = {"world": world, "target": list(target)}
+        tag += f":{target[0]}:{target[1]}"
     exc_holder = []
     g, err = construct_capture(cname, kwargs, log, via, exc_holder)
     ctx.count(f"stream:{stream}:" + ("constructed" if g is not None else "rejected"))
     if ctx.model_available and log.generic_calls and log.generic_calls[-1] is not None:
         corr.construct_case(cname, kwargs, log.generic_calls[-1], g, exc_holder[0] if exc_holder else None)
-    if via is not None and ctx.model_available:
+    if ctx.model_available and cname == "EquivalentRibbedGroove":
+        corr.ribbed_case(kwargs, log, g, exc_holder[0] if exc_holder else None)
+    not_found = bool(exc_holder) and isinstance(exc_holder[0], ValueError) and "No groove class named" in str(exc_holder[0])
+    if via is not None and ctx.model_available and world is None:
         corr.name_case(via, None if (err == "ValueError" and exc_holder and "No groove class named" in str(exc_holder[0]))
                        else cname)
+    if world is not None:
+        ctx.count(f"plugin:{target[0]}:{kind}:" + ("not-found" if not_found else "rejected" if g is None else "constructed"))
     if g is None:
-        ctx.case(canon, nontrivial=must_reject)
+        ctx.case(canon, nontrivial=must_reject or (world is not None and not_found))
         ctx.count("rejected-with:" + err)
-        if via is not None and exc_holder and "No groove class named" in str(exc_holder[0]):
+        if via is not None and not_found and (target is None or target[0] == "core"):
             ctx.violation("factory-name:" + kind, f"create_groove_by_type_name({via!r}) does not find {cname} although the "
                           f"spelling is documented ({kind}): {exc_holder[0]}",
-                          {"class": cname, "via": via, "kwargs": kwargs, "kind": kind})
+                          dict({"class": cname, "via": via, "kwargs": kwargs, "kind": kind}, **rp_extra))
+        elif via is not None and not_found and kind == "words":
+            # docstring: "Supports all grooves from the pyroll.core.grooves namespace as well as from all currently loaded
+            # modules", type name "with words separated by spaces, dashes or underscores"
+            ctx.violation("factory-extension:" + kind, f"create_groove_by_type_name({via!r}) does not find the groove class "
+                          f"{target[1]} of a loaded module ({tag}): {exc_holder[0]}",
+                          dict({"class": cname, "via": via, "kwargs": kwargs, "kind": kind}, **rp_extra))
+        elif via is not None and not_found:
+            # the EXACT class name of an extension class (`KeyholeGroove`): `title()` lower-cases its tail, the factory looks
+            # for `KeyholegrooveGroove`.  The exact-name shortcut of the factory covers the package's own classes only; C03
+            # quantifies over the classes of the public API: counted, reported in notes/C03.md, no violation.
+            ctx.count("plugin:extension-exact-name-not-found")
         return None
     ctx.case(canon)
     ctx.count("constructed:" + tag.replace(":factory", ""))
-    if via is not None and type(g).__name__ != cname:
+    if via is not None and expect is None and type(g).__name__ != cname:
         ctx.violation("factory-class", f"create_groove_by_type_name({via!r}) built a {type(g).__name__}, expected {cname}",
                       {"class": cname, "via": via, "kwargs": kwargs})
+    if expect is not None and not any(type(g) is c for c in expect):
+        got = f"{type(g).__module__}.{type(g).__qualname__}"
+        if target[0] == "core":
+            # docstring: grooves of the pyroll.core.grooves namespace take precedence over those of other loaded modules
+            ctx.violation("factory-precedence:" + kind, f"create_groove_by_type_name({via!r}) handed out a {got} although "
+                          f"pyroll.core.grooves has a class {target[1]} ({tag})",
+                          dict({"class": cname, "via": via, "kwargs": kwargs, "kind": kind}, **rp_extra))
+        else:
+            ctx.violation("factory-extension-class:" + kind, f"create_groove_by_type_name({via!r}) handed out a {got}, the "
+                          f"type name spells {target[1]} ({tag})",
+                          dict({"class": cname, "via": via, "kwargs": kwargs, "kind": kind}, **rp_extra))
     if must_reject:
         k = stream.split(":")[1]
         ctx.violation(f"accepted:{k}:{family(cname)}", f"{tag}: input that is unrealisable on its face ({stream}) was accepted",
-                      {"class": cname, "kwargs": kwargs, "via": via, "stream": stream, "must_reject": True})
-    check_wellformed(ctx, cname, tag, kwargs, g, via)
+                      dict({"class": cname, "kwargs": kwargs, "via": via, "stream": stream, "must_reject": True}, **rp_extra))
+    check_wellformed(ctx, cname, tag, kwargs, g, via, rp_extra)
     if len(ctx.samples) < 3:
         ctx.sample({"class": cname, "kwargs": kwargs, "via": via, "vertices": len(g.contour_points)})
     return g
@@ -959,6 +1124,7 @@ def run_case(ctx, corr, log, cname, subset, kwargs, stream, must_reject, via=Non
 def construct_capture(cname, kwargs, log, via, holder):
     """construct(), additionally handing back the exception object (for the traceback-based classification)"""
     log.generic_calls.clear()
+    log.ribbed_solver_calls.clear()
     try:
         with warnings.catch_warnings():
             warnings.simplefilter("ignore")
@@ -1023,13 +1189,19 @@ def _extracted(ctx):
     found = getattr(ctx, "c03", None)
     if found is None:                       # extended search re-enters run() on a fresh ctx without translate()
         from ..translate import c03_validate as T
+        from ..translate import c03_ribbed as TR
         found = T.extract_all()
+        found["ribbed"] = TR.extract()
     return found
 
 
 def translate(ctx):
     from ..translate import c03_validate as T
+    from ..translate import c03_factory as TF
+    from ..translate import c03_ribbed as TR
     ctx.c03 = T.emit(ctx, ID)
+    ctx.c03["factory_steps"] = TF.emit(ctx, ID)          # the lookup order of the factory -> Gen/C03Factory.lean
+    ctx.c03["ribbed"] = TR.emit(ctx, ID)                 # EquivalentRibbedGroove.__init__ -> Gen/C03Ribbed.lean
 
 
 def _name_stream(ctx, corr, n):
@@ -1087,6 +1259,315 @@ def _name_stream(ctx, corr, n):
     finally:
         for c, v in saved.items():
             setattr(G, c, v)
+
+
+# ---------------------------------------------------------------------------------------------------------
+# the by-name factory in the presence of user-defined groove classes (modules loaded after pyroll.core)
+# ---------------------------------------------------------------------------------------------------------
+# docstring of create_groove_by_type_name: "Supports all grooves from the pyroll.core.grooves namespace as well as from all
+# currently loaded modules.  The former take precedence."  A world = a few modules registered in sys.modules for the duration
+# of the requests; each defines GrooveBase subclasses
+#   * under a name the core also uses ("collide"): a subclass of that core class which behaves the same ("same"), reads its
+#     lengths in another unit ("scale": every length argument x factor), or is a different groove altogether ("other": ignores
+#     its arguments, a flat groove of width 1) - legitimate user code, reachable as <module>.<Name>, which must not change
+#     what the factory hands out for the core's type name in any documented spelling;
+#   * under a new name ("new"): a pass-through subclass of a random core class - the extension mechanism.
+PLUGIN_PREFIX = "c03_plugin_"
+NEW_WORDS = ["keyhole", "plant", "tee", "rail", "beam", "angle", "slit", "edger", "leader", "strand", "web", "flange", "bulb",
+             "cross", "double", "half", "open", "closed", "diagonal", "bastard", "round", "oval", "box", "flat", "false", "upset",
+             "swedish", "gothic", "square"]
+UNIT_FACTORS = [25.4, 1 / 25.4, 1e-3, 1e3, 0.5, 2.0]
+
+
+def new_class_name(rng, taken):
+    """a CamelCase class name `…Groove` of 1-3 words (optionally a digit word, not in front) that nobody uses yet"""
+    while True:
+        ws = [rng.choice(NEW_WORDS) for _ in range(rng.choice([1, 1, 2, 2, 3]))]
+        if rng.random() < 0.25:
+            ws.insert(rng.randint(1, len(ws)), str(rng.randint(2, 9)))
+        name = "".join(w.capitalize() for w in ws) + "Groove"
+        if name not in taken:
+            return name
+
+
+def draw_world(rng, focus):
+    """-> [{"module": name, "classes": [{"name", "base", "mode", "factor"}]}], in load order (all after pyroll.core)"""
+    import pyroll.core.grooves as G
+    taken = set(dir(G))
+    mods = []
+    for i in range(rng.choice([1, 1, 2, 3])):
+        classes = {}
+        for _ in range(rng.choice([1, 2, 2, 3])):
+            if rng.random() < 0.55:
+                name = focus if rng.random() < 0.6 else rng.choice(ALL_CLASSES)
+                spec = dict(name=name, base=name, mode=rng.choice(["same", "scale", "scale", "other"]),
+                            factor=rng.choice(UNIT_FACTORS))
+            else:
+                earlier = [c["name"] for m in mods for c in m["classes"] if c["kind"] == "new"]
+                name = rng.choice(earlier) if earlier and rng.random() < 0.2 else new_class_name(rng, taken)
+                spec = dict(name=name, base=rng.choice(ALL_CLASSES), mode="same", factor=1.0)
+            spec["kind"] = "collide" if spec["name"] in ALL_CLASSES else "new"
+            classes.setdefault(spec["name"], spec)
+        mods.append({"module": f"{PLUGIN_PREFIX}{i}", "classes": list(classes.values())})
+    return mods
+
+
+def _plugin_class(G, modname, spec):
+    base = getattr(G, spec["base"])
+    ns = {"__module__": modname, "__doc__": f"harness-defined groove class ({spec['mode']}) of the C03 check"}
+    if spec["mode"] == "scale":
+        f = float(spec["factor"])
+
+        def __init__(self, *a, **kw):
+            base.__init__(self, *a, **{k: (v * f if k in LENGTHS and isinstance(v, (int, float)) else v) for k, v in kw.items()})
+        ns["__init__"] = __init__
+    elif spec["mode"] == "other":
+        base = G.FlatGroove
+
+        def __init__(self, *a, **kw):
+            G.FlatGroove.__init__(self, usable_width=1.0)
+        ns["__init__"] = __init__
+    elif spec["mode"] != "same":
+        raise KeyError(spec["mode"])
+    return type(spec["name"], (base,), ns)
+
+
+@contextlib.contextmanager
+def plugin_world(world):
+    """register the modules of `world` in sys.modules (after everything that is loaded, pyroll.core included); yields
+    {class name: [class objects, in load order]}; the modules are removed again and emptied in `finally` (the classes
+    themselves disappear from the subclass registries of their bases with the next garbage collection, `collect_plugins`)"""
+    import sys
+    import types
+    import pyroll.core.grooves as G
+    made, by_name = [], {}
+    try:
+        for m in world:
+            if m["module"] in sys.modules:
+                raise RuntimeError(f"module name {m['module']} is in use")
+            mod = types.ModuleType(m["module"])
+            for spec in m["classes"]:
+                c = _plugin_class(G, m["module"], spec)
+                setattr(mod, spec["name"], c)
+                by_name.setdefault(spec["name"], []).append(c)
+            sys.modules[m["module"]] = mod
+            made.append(mod)
+        yield by_name
+    finally:
+        for mod in made:
+            sys.modules.pop(mod.__name__, None)
+            mod.__dict__.clear()
+        by_name.clear()
+
+
+def collect_plugins(ctx):
+    """after the last reference to harness-defined classes is gone: collect them and report what is still registered"""
+    import gc
+    import sys
+    import pyroll.core.grooves as G
+    gc.collect()
+
+    def subclasses(c):
+        for d in c.__subclasses__():
+            yield d
+            yield from subclasses(d)
+    left = sorted({f"{c.__module__}.{c.__name__}" for c in subclasses(G.GrooveBase) if c.__module__.startswith(PLUGIN_PREFIX)})
+    mods = sorted(m for m in sys.modules if m.startswith(PLUGIN_PREFIX))
+    if mods:
+        raise RuntimeError(f"harness modules left in sys.modules: {mods}")
+    ctx.notes["plugin_classes_left_after_cleanup"] = left[:10]
+
+
+# a plant-specific module re-using two class names of the core for grooves dimensioned in inches + a new type, and a
+# second module loaded later that defines the new type again and another class of a core name that behaves the same
+PLUGIN_CORPUS = [
+    ("RoundGroove",
+     [{"module": PLUGIN_PREFIX + "0", "classes": [
+         {"name": "RoundGroove", "base": "RoundGroove", "mode": "scale", "factor": 25.4, "kind": "collide"},
+         {"name": "BoxGroove", "base": "BoxGroove", "mode": "scale", "factor": 25.4, "kind": "collide"},
+         {"name": "KeyholeGroove", "base": "RoundGroove", "mode": "same", "factor": 1.0, "kind": "new"}]},
+      {"module": PLUGIN_PREFIX + "1", "classes": [
+          {"name": "KeyholeGroove", "base": "CircularOvalGroove", "mode": "same", "factor": 1.0, "kind": "new"},
+          {"name": "FlatGroove", "base": "FlatGroove", "mode": "same", "factor": 1.0, "kind": "collide"},
+          {"name": "Tee2SlitGroove", "base": "BoxGroove", "mode": "same", "factor": 1.0, "kind": "new"}]}]),
+]
+
+
+def world_requests(rng, world, focus, corpus=False):
+    """-> [(target, class to draw dimensions for, type name, kind)]: every class name the world defines + the focus class,
+    each under two documented spellings (one of them with separated words)"""
+    targets = [("core", focus, focus)]
+    for m in world:
+        for c in m["classes"]:
+            t = ("core", c["name"], c["name"]) if c["kind"] == "collide" else ("extension", c["name"], c["base"])
+            if t not in targets:
+                targets.append(t)
+    out = []
+    for (tt, name, base) in targets:
+        sp = [spelling(rng, name)]
+        while True:
+            w = spelling(rng, name)
+            if w[1] == "words":
+                sp.append(w)
+                break
+        if corpus:
+            sp.append((name, "exact"))
+        for via, kind in sp:
+            out.append(((tt, name), base, via, kind))
+    return out
+
+
+def _plugin_stream(ctx, corr, log, n_worlds, only=None):
+    """oracle (+ K on every generic constructor call) for the by-name factory while harness-defined modules are loaded"""
+    rng = ctx.rng
+    jobs = []
+    if only is not None:
+        jobs = [only]
+    else:
+        for focus, world in PLUGIN_CORPUS:
+            jobs.append((world, None, focus, True))
+        for _ in range(n_worlds):
+            focus = rng.choice(ALL_CLASSES)
+            jobs.append((draw_world(rng, focus), None, focus, False))
+    try:
+        for world, requests, focus, corpus in jobs:
+            core = {c: _cls(c) for c in ALL_CLASSES}                  # the classes of the public API, before anything is loaded
+            with plugin_world(world) as by_name:
+                if requests is None:
+                    requests = []
+                    for target, base, via, kind in world_requests(rng, world, focus, corpus):
+                        subset = rng.choice(subsets_of(base))
+                        fixed, vals, info = draw(rng, base)
+                        kw = dict(fixed, **{k: vals[k] for k in subset})
+                        stream = "feasible"
+                        if rng.random() < 0.2:
+                            kw, stream = perturb(rng, kw), "perturbed"
+                        requests.append((target, base, subset, kw, stream, via, kind))
+                ctx.count("plugin:worlds")
+                for target, base, subset, kw, stream, via, kind in requests:
+                    expect = [core[target[1]]] if target[0] == "core" else list(by_name.get(target[1], []))
+                    run_case(ctx, corr, log, base, subset, kw, stream, False, via=via, kind=kind, world=world,
+                             target=target, expect=expect)
+                expect = None
+    finally:
+        if ctx.model_available:
+            corr.flush()                # the expectations hold groove objects, i.e. references to the harness classes
+        collect_plugins(ctx)
+
+
+class _Found(Exception):
+    pass
+
+
+def _lookup_stream(ctx, corr, n_worlds):
+    """(K) the generated statement list of the factory (`Gen.C03Factory.steps`, run by the Lean driver's `lookup`) vs the
+    real function, on worlds of STUB objects (no constructor runs): the package's exported classes are replaced by stub
+    groove classes, 1-3 stub modules are loaded that bind core names and new names to stub groove classes, to other truthy
+    objects (a function), to falsy objects, or to the package's own class (`from pyroll.core import RoundGroove`); now and
+    then the package itself gets an additional binding.  Every stub raises `_Found(<owner>/<name>)` when called."""
+    import sys
+    import types
+    import pyroll.core.grooves as G
+    rng = ctx.rng
+
+    def stub_class(ident, name):
+        def new(cls, *a, **k):
+            raise _Found(ident)
+        return type(name, (G.GrooveBase,), {"__new__": new})
+
+    def stub_other(ident):
+        def f(*a, **k):
+            raise _Found(ident)
+        return f
+
+    def make(kind, ident, name):
+        return stub_class(ident, name) if kind == "g" else stub_other(ident) if kind == "t" else rng.choice([0, "", ()])
+
+    exported = [c for c in G.__all__ if isinstance(getattr(G, c), type)]
+    saved = {c: getattr(G, c) for c in exported}
+    for c in exported:
+        setattr(G, c, stub_class("pkg/" + c, c))
+    extras, mods = [], []
+    try:
+        for _ in range(n_worlds):
+            taken = set(dir(G))
+            names = []
+            # ---- an additional binding in the package itself
+            for c in extras:
+                delattr(G, c)
+            extras = []
+            if rng.random() < 0.3:
+                nm = new_class_name(rng, taken)
+                setattr(G, nm, make(rng.choice("gtf"), "pkg/" + nm, nm))
+                extras.append(nm)
+                names.append(nm)
+            # ---- the loaded modules
+            desc = []
+            for i in range(rng.choice([1, 2, 2, 3])):
+                label = f"{PLUGIN_PREFIX}stub{i}"
+                mod = types.ModuleType(label)
+                binds = []
+                for _ in range(rng.choice([1, 2, 3, 4])):
+                    nm = rng.choice(exported) if rng.random() < 0.5 else (
+                        rng.choice(names) if names and rng.random() < 0.3 else new_class_name(rng, taken))
+                    if hasattr(mod, nm):
+                        continue
+                    if nm in exported and rng.random() < 0.25:
+                        setattr(mod, nm, getattr(G, nm))                  # the package's own class, imported by the module
+                        binds.append(f"{nm}=g@pkg/{nm}")
+                    else:
+                        kind = rng.choice("ggggttff")
+                        setattr(mod, nm, make(kind, f"{label}/{nm}", nm))
+                        binds.append(f"{nm}={kind}")
+                    names.append(nm)
+                sys.modules[label] = mod
+                mods.append(mod)
+                desc.append(label + ":" + ",".join(binds))
+            pkg = "pkg:" + ",".join(
+                f"{a}={'g' if isinstance(v, type) and issubclass(v, G.GrooveBase) else 't' if v else 'f'}"
+                for a, v in sorted(vars(G).items()) if a.isascii() and a.isidentifier())
+            # ---- names: every bound name under documented spellings (+ one-character edits), as it is, and a few others
+            asked = []
+            for nm in dict.fromkeys(names + [rng.choice(exported) for _ in range(2)]):
+                asked += [spelling(rng, nm)[0], spelling(rng, nm)[0], nm]
+                v = asked[-2]
+                if v and rng.random() < 0.3:
+                    i = rng.randrange(len(v))
+                    asked.append(rng.choice([v[:i] + v[i + 1:], v[:i] + v[i] + v[i:], v + rng.choice("_ -."), rng.choice("_ -.") + v]))
+            asked += rng.sample(ADVERSARIAL_NAMES, 2)
+            for name in asked:
+                if not name.isascii():
+                    continue
+                try:
+                    G.create_groove_by_type_name(name)
+                    real = "?"
+                except _Found as f:
+                    real = "called " + str(f)
+                except ValueError as ex:
+                    real = "notfound" if "No groove class named" in str(ex) else "?"
+                except TypeError:
+                    real = "?"
+                if real == "?":
+                    ctx.count("K:lookup-skipped")
+                    continue
+                ctx.case(["lookup", name, pkg if extras else "", desc])
+                where = "" if " " not in real else (":package" if real.split(" ")[1].startswith("pkg/") else ":module")
+                ctx.count("lookup:" + real.split(" ")[0] + where)
+                corr.lookup_case(name, pkg, desc, real)
+            for mod in mods:
+                sys.modules.pop(mod.__name__, None)
+                mod.__dict__.clear()
+            mods = []
+    finally:
+        for mod in mods:
+            sys.modules.pop(mod.__name__, None)
+            mod.__dict__.clear()
+        for c in extras:
+            delattr(G, c)
+        for c, v in saved.items():
+            setattr(G, c, v)
+        import gc
+        gc.collect()                    # the stub classes leave the subclass registry of the real GrooveBase
 
 
 SPLINE_SHAPES = [
@@ -1195,6 +1676,7 @@ def run(ctx):
             fixed, vals, _ = draw(random_for(cname), cname)
             kw = dict(fixed, **{k: vals[k] for k in subsets_of(cname)[0]})
             run_case(ctx, corr, log, cname, subsets_of(cname)[0], kw, "feasible", False, via=via, kind=kind)
+        _plugin_stream(ctx, corr, log, ctx.budget(40, 600))
         n0 = ctx.budget(60, 1500)
         for cname in ALL_CLASSES:
             subsets = subsets_of(cname)
@@ -1230,6 +1712,7 @@ def run(ctx):
                                      f"geometries given as {subset}", {"class": cname, "subset": list(subset)})
     if ctx.model_available:
         _name_stream(ctx, corr, ctx.budget(300, 6000))
+        _lookup_stream(ctx, corr, ctx.budget(40, 600))
     _spline_stream(ctx, corr)
     if ctx.model_available:
         corr.flush()
@@ -1254,6 +1737,16 @@ def replay(ctx, data):
             _spline_stream(ctx, corr, only=[(int(r.get("ndim", 2)), r["rows"], "replay")])
         elif "name" in r and "class" not in r:
             _name_stream(ctx, corr, 0)
+        elif "lookup" in r:
+            _lookup_stream(ctx, corr, 40)
+        elif "world" in r:
+            cname = r["class"]
+            kw = {k: (float(v) if isinstance(v, str) and v in ("nan", "inf", "-inf", "NaN", "Infinity") else v)
+                  for k, v in r["kwargs"].items()}
+            opt = [k for s in subsets_of(cname) for k in s]
+            subset = tuple(k for k in kw if k in opt)
+            request = (tuple(r["target"]), cname, subset, kw, r.get("stream", "replay"), r["via"], r.get("kind", "words"))
+            _plugin_stream(ctx, corr, log, 0, only=(r["world"], [request], cname, False))
         else:
             cname = r["class"]
             kw = {k: (float(v) if isinstance(v, str) and v in ("nan", "inf", "-inf", "NaN", "Infinity") else v)
